@@ -136,6 +136,9 @@ func (e *Enc) solve(opt solveOpts) {
 		if len(hob) == 0 {
 			break
 		}
+		for _, o := range hob {
+			o.Verdict = "" // re-decided under the current set of candidate invariants
+		}
 		e.runBatch(solvers[0], hob, off, opt.quickMs)
 		changed := false
 		for _, o := range hob {
